@@ -585,8 +585,8 @@ struct ObsHarness
     in.given.resize(readers.size());
     auto &m = *meters[static_cast<size_t>(in.meter)];
     clock.tick();
-    // instrument names are plain NUL-terminated strings here: how names are validated is property
-    // C19 (F14: the validator reads the view as a C string), not this one
+    // instrument names are plain NUL-terminated strings here: how names given as views are
+    // validated is property C19 (finding F14), and this check must not depend on that repair
     {
       const std::string &nm = in.name;
       const char *ds = "d", *un = "1";
